@@ -1,5 +1,6 @@
 import Gws.Props.TransReadLoop
 import Gws.Props.C05
+import Gws.Props.TransFW
 /-!
 # A clause of C05 stated of the translated Go code: a streamed message (`WriteFile`, no compression)
 
@@ -57,5 +58,145 @@ example :
     opcode.toNat < 16 ∧ cfg.writeMax < 2 ^ 63 ∧ cfg.pdEnabled = false ∧ (readChunks script).2 = true ∧
       (∀ c ∈ (readChunks script).1, c.length ≤ cfg.writeMax) ∧ (∀ rd ∈ script, rd.1.length < 2 ^ 62) := by
   simp [readChunks]
+
+/-! ### the aggregator only ever hands the callback bytes it was given: two callbacks that agree on data no longer than
+everything written behave alike under `compressT` -/
+
+/-- the number of bytes an aggregator holds -/
+private def held (w : FlateWriter) : Nat := (w.buffers.map (·.data.length)).sum
+
+private theorem held_write (w : FlateWriter) (p : Bytes) : held (w.write p) = held w + p.length := by
+  obtain ⟨idx, bufs⟩ := w
+  unfold FlateWriter.write held
+  rcases List.eq_nil_or_concat bufs with h | ⟨init, t, h⟩
+  · subst h
+    simp only [List.length_nil, if_true, List.nil_append, List.getLast?_singleton, List.length_nil]
+    split <;> simp
+  · rw [List.concat_eq_append] at h
+    subst h
+    have hl' : ¬ ((init ++ [t]).length = 0) := by simp
+    simp only [hl', if_false, List.getLast?_concat, List.dropLast_concat]
+    split <;> simp <;> omega
+
+private theorem feedT_congr (F G : List Bytes → Nat → Bool → Bytes → List Bytes × Option GoErr) (B : Nat)
+    (hFG : ∀ st i e p, p.length ≤ B → F st i e p = G st i e p) :
+    ∀ (outs : List Bytes) (st : List Bytes) (w : FlateWriter), held w + outs.flatten.length ≤ B →
+      FW.feedT F st w outs = FW.feedT G st w outs ∧
+        ∀ w' st' e, FW.feedT G st w outs = some (w', st', e) → held w' ≤ B := by
+  intro outs
+  induction outs with
+  | nil =>
+    intro st w hB
+    refine ⟨rfl, ?_⟩
+    intro w' st' e h
+    simp only [FW.feedT, Option.some.injEq, Prod.mk.injEq] at h
+    rw [← h.1]
+    simpa using hB
+  | cons p ps ih =>
+    intro st w hB
+    have hw := held_write w p
+    simp only [List.flatten_cons, List.length_append] at hB
+    rw [FW.feedT, FW.feedT, FW.Write_eq, FW.Write_eq]
+    simp only []
+    cases hs : (w.write p).shouldCall
+    · simpa using ih st (w.write p) (by omega)
+    · cases hb : (w.write p).buffers with
+      | nil => simp
+      | cons b0 rest =>
+        have hh : held (w.write p) = b0.data.length + held ⟨(w.write p).index + 1, rest⟩ := by
+          simp [held, hb]
+        simp only [↓reduceIte]
+        rw [hFG st (w.write p).index false b0.data (by omega)]
+        cases he : (G st (w.write p).index false b0.data).2 with
+        | some e =>
+          refine ⟨rfl, ?_⟩
+          intro w' st' e' h
+          simp only [Option.some.injEq, Prod.mk.injEq] at h
+          rw [← h.1]
+          omega
+        | none => exact ih _ _ (by omega)
+
+private theorem compressT_congr (F G : List Bytes → Nat → Bool → Bytes → List Bytes × Option GoErr) (sawEof : Bool) (outs : List Bytes)
+    (hFG : ∀ st i e p, p.length ≤ outs.flatten.length → F st i e p = G st i e p) :
+    FW.compressT F [] sawEof outs = FW.compressT G [] sawEof outs := by
+  obtain ⟨h1, h2⟩ := feedT_congr F G outs.flatten.length hFG outs [] {} (by simp [held])
+  unfold FW.compressT
+  rw [h1]
+  cases hf : FW.feedT G [] {} outs with
+  | none => rfl
+  | some r =>
+    obtain ⟨w', st', e⟩ := r
+    cases e with
+    | some e => rfl
+    | none =>
+      simp only []
+      cases sawEof with
+      | false => rfl
+      | true =>
+        simp only [Bool.not_true, Bool.false_eq_true, if_false]
+        rw [FW.Flush_eq, FW.Flush_eq]
+        have hB := h2 w' st' none hf
+        cases hb : w'.buffers with
+        | nil => rfl
+        | cons b0 rest =>
+          have hl : (stripTail (b0.data ++ (rest.map (·.data)).flatten)).length ≤ outs.flatten.length := by
+            refine Nat.le_trans (stripTail_length_le _) ?_
+            have : (b0.data ++ (rest.map (·.data)).flatten).length = held w' := by
+              simp [held, hb, List.length_flatten, Function.comp_def]
+            omega
+          simp only []
+          rw [hFG _ _ _ _ hl]
+
+/-- the compressed path: the calling sequence of `bigDeflater.Compress` over the translated aggregator (`TransEquiv.FW.compressT`:
+the compressor's `Write` calls `outs` — any cutting of any output —, then `Flush`), with the translated callback and the
+translated `genFrame`: no error, and the bytes written decode as ONE message — `opcode, 0, 0, …`, FIN exactly on the last frame,
+RSV1 exactly on the first — of well-formed frames whose concatenated payloads are the compressor's output minus exactly one
+trailing `00 00 ff ff` (the hold-back never lets part of the trailer escape in an earlier frame). -/
+theorem streamed_compressed_message_frames (cfg : Cfg) (codec : Codec) (opcode : UInt8) (outs : List Bytes) (maskNums : Nat → UInt32)
+    (hop : opcode.toNat < 16) (hmax : cfg.writeMax < 2 ^ 63) (hpd : cfg.pdEnabled = true)
+    (hne : outs ≠ []) (hfit : outs.flatten.length ≤ cfg.writeMax) (hlen : outs.flatten.length < 2 ^ 62) :
+    ∃ frames : List Bytes,
+      TransEquiv.FW.compressT
+          (fun (st : List Bytes) (index : Nat) (eof : Bool) (p : Bytes) =>
+            match Trans.Conn_doWriteFile_frame (c_pd_Enabled := cfg.pdEnabled) (c_genFrame := genFrameT cfg (maskNums index))
+                (closed := false) (eof := eof) (index := (index : Int)) (opcode := opcode) (p := p) with
+            | .ok frame => (st ++ [frame], none)
+            | .error e => (st, e))
+          [] true outs = some (frames, none) ∧
+      ∃ fs, Spec.decodeFrames frames.flatten = some fs ∧ fs ≠ [] ∧
+        Spec.messageShape opcode.toNat true (fs.map (·.1)) ∧
+        (∀ f ∈ fs, Spec.wellFormedSent (!cfg.isServer) f.1) ∧
+        (fs.map (·.2)).flatten = stripTail outs.flatten := by
+  have hC := compressT_congr
+    (fun (st : List Bytes) (index : Nat) (eof : Bool) (p : Bytes) =>
+      match Trans.Conn_doWriteFile_frame (c_pd_Enabled := cfg.pdEnabled) (c_genFrame := genFrameT cfg (maskNums index))
+          (closed := false) (eof := eof) (index := (index : Int)) (opcode := opcode) (p := p) with
+      | .ok frame => (st ++ [frame], none)
+      | .error e => (st, e))
+    (FW.cbOf (fun index eof p => fileFrame cfg codec false opcode.toNat index eof p (goBytesU32LE (maskNums index))))
+    true outs (by
+      intro st k eof p hp
+      simp only [FW.cbOf]
+      rcases cb_translated_cases cfg codec false opcode (maskNums k) k eof p (by omega) with ⟨b, h1, h2⟩ | ⟨e, h1, h2⟩ <;>
+        rw [h1, h2])
+  have hT := hC.trans (FW.compressFile_translated _ true outs hne)
+  have hM := writeFile_frames_compressed cfg codec {} opcode.toNat [([], true)] outs (fun i => goBytesU32LE (maskNums i))
+    hop (fun i => by simp [goBytesU32LE]) rfl hmax hpd (by simp [readChunks]) hne hfit
+  generalize hr : Writer.compressFile (fun index eof p => fileFrame cfg codec false opcode.toNat index eof p
+    (goBytesU32LE (maskNums index))) true outs = r at hT
+  have hw : writeFile cfg codec {} opcode.toNat [([], true)] outs (fun i => goBytesU32LE (maskNums i))
+      = emitError cfg codec { wire := r.1.flatten, err := r.2, st := { ({} : Conn) with cps := Win.write ({} : Conn).cps [] } }
+          (goBytesU32LE (maskNums r.1.length)) := by
+    simp [writeFile, writeFileFrames, hpd, hr, readChunks]
+  rw [hw] at hM
+  obtain ⟨r1, r2⟩ := r
+  cases r2 with
+  | some e =>
+    have := hM.1
+    simp only [emitError] at this
+    split at this <;> simp at this
+  | none =>
+    simp only [emitError] at hM
+    exact ⟨r1, hT, hM.2.2.2⟩
 
 end TransProps
